@@ -163,10 +163,8 @@ func (w *World) runTwinPair(n int, c Cookie, r *rand.Rand) []Line {
 		}
 	}
 	wg.Wait()
-	calls := map[string]bool{}
-	for _, cl := range w.FA.Calls() {
-		calls[cl.Endpoint] = true
-	}
+	// the two sessions carry different tokens: every back-channel call can be attributed to its request
+	mine := []map[string]bool{{"at-good": true, "rt-good": true, "at-new": true}, {"at-gone": true, "rt-gone": true}}
 	var lines []Line
 	for i := 0; i < 2; i++ {
 		resp := resps[i]
@@ -174,6 +172,12 @@ func (w *World) runTwinPair(n int, c Cookie, r *rand.Rand) []Line {
 		for _, g := range w.Backs[host].Got() {
 			if g.Target == "/"+tags[i] {
 				o.Reached = true
+			}
+		}
+		calls := map[string]bool{}
+		for _, cl := range w.FA.Calls() {
+			if mine[i][cl.Token] {
+				calls[cl.Endpoint] = true
 			}
 		}
 		for ep := range calls {
